@@ -21,12 +21,13 @@ import (
 )
 
 type crCase struct {
-	Name   string `json:"name"`
-	Point  string `json:"point"`
-	Proto  string `json:"proto"`
-	How    string `json:"how"` // exit, kill
-	Jit    int    `json:"jitter_ms"`
-	Settle bool   `json:"settle"`
+	Name        string `json:"name"`
+	Point       string `json:"point"`
+	Proto       string `json:"proto"`
+	How         string `json:"how"` // exit, kill
+	Jit         int    `json:"jitter_ms"`
+	Settle      bool   `json:"settle"`
+	LineVariant int    `json:"line_variant"` // which output a plugin dying while printing leaves behind
 }
 
 type crCall struct {
@@ -48,7 +49,10 @@ func runCrashCase(c crCase, bin, tmp string) map[string]interface{} {
 	case "before_output":
 		pc.Crash = &vp.CrashCfg{Event: pick(c.Jit, "serve.cookie.ok", "serve.listen", "serve.line.printing"), How: c.How}
 	case "mid_line":
-		pc.MockLine, pc.MockThen = pick(c.Jit, "1|1|unix|/nonexistent/half", "1|1|uni", "1|1|unix|/nonexistent/sock|grp"), "exit"
+		// dies while printing: half a line, or a banner / error text of several lines with or without a
+		// truncated handshake line after it
+		pc.MockLine, pc.MockThen = pick(c.LineVariant, "1|1|unix|/nonexistent/half", "1|1|uni", "1|1|unix|/nonexistent/sock|grp",
+			"plugin starting up, version 1.2\n1|1|unix|/nonexistent/half", "error: cannot start\nusage: plugin [flags]\n  -x  something\n"), "exit"
 	case "after_line":
 		pc.Crash = &vp.CrashCfg{Event: pick(c.Jit, "serve.line.printed", "serve.stdio.swapped", "serve.serving"), How: c.How, DelayMs: c.Jit % 3}
 	case "broker_after_id":
